@@ -212,7 +212,10 @@ class FnTir:
                     return ("seq", [])
                 items.append(self.W(init))
                 if pat.get("k") == "bind" and pat.get("mut"):
-                    pass    # a mutable local (counter, flag): its value at a use site is not its initialiser
+                    # a mutable local (counter, flag): its value at a use site is not its initialiser; a string literal
+                    # is remembered as an explicit `set` effect
+                    if pi.get("k") == "lit" and pi["lit"]["t"] == "str":
+                        items.append(("set", pat["name"], pi["lit"]["v"]))
                 elif pat.get("k") == "bind":
                     self.env[pat["name"]] = self.S(init)
                     self.env_expr[pat["name"]] = init
@@ -288,6 +291,9 @@ class FnTir:
             if l.get("k") == "local" and l["name"] in self.sinks and self.sinks[l["name"]] == "buffer":
                 # buffer = <string>  (re-initialisation): treated as an append of the new contents after a reset marker
                 return ("seq", [("w", l["name"], ("reset",)), ("w", l["name"], self.S(e["r"]))])
+            r_ = H.peel_ref(e["r"])
+            if k == "assign" and l.get("k") == "local" and isinstance(r_, dict) and r_.get("k") == "lit" and r_["lit"]["t"] == "str":
+                return ("set", l["name"], r_["lit"]["v"])        # a literal-valued mutable local (separator variables)
             return self.W(e["r"])
         if k == "fmt":
             return ("seq", [self.W(p["arg"]) for p in e["pieces"] if "arg" in p])
@@ -609,26 +615,29 @@ def has_writes(E):
     return False
 
 
-def project(E, sink, bufs=None):
-    """string-TIR of everything `E` appends to `sink` (control flow kept). Returns an S tree."""
+def project(E, sink, bufs=None, keep_sets=False):
+    """string-TIR of everything `E` appends to `sink` (control flow kept). Returns an S tree.  With keep_sets the
+    assignments of string literals to mutable locals are kept as ("set", name, value) atoms."""
     k = E[0]
     if k == "w":
         return E[2] if E[1] == sink else ("seq", [])
+    if k == "set":
+        return E if keep_sets else ("seq", [])
     if k == "seq":
         out = []
         for x in E[1]:
-            p = project(x, sink)
+            p = project(x, sink, bufs, keep_sets)
             if p == ("seq", []):
                 continue
             out.append(p)
         return ("seq", out) if len(out) != 1 else out[0]
     if k == "alt":
-        alts = [(g, project(x, sink)) for g, x in E[1]]
+        alts = [(g, project(x, sink, bufs, keep_sets)) for g, x in E[1]]
         if all(a == ("seq", []) for _, a in alts):
             return ("seq", [])
         return ("alt", alts)
     if k == "loop":
-        b = project(E[1], sink)
+        b = project(E[1], sink, bufs, keep_sets)
         if b == ("seq", []):
             return ("seq", [])
         return ("loop", b, E[2])
